@@ -4,6 +4,7 @@
 package c12
 
 import (
+	"time"
 	"encoding/json"
 	"errors"
 	"fmt"
@@ -128,6 +129,7 @@ type bounds struct {
 	maxDepth   int
 	maxEntries int
 	maxCalls   int
+	passBudget time.Duration // 0 = none
 }
 
 // kind of root the engine accepts: "any", "map", "list"
@@ -504,7 +506,14 @@ func explore(r *core.Run, engine string, b bounds, pref string) {
 	var mu sync.Mutex
 	var states, trans int64
 	depth := 0
+	started := time.Now()
 	for len(frontier) > 0 && depth < b.maxCalls {
+		if b.passBudget > 0 && time.Since(started) > b.passBudget {
+			// an internal deadline, checked between levels only: everything up to this call depth was
+			// completed; the run is reported as not exhaustive for its stated bound
+			r.Capped(fmt.Sprintf("%s, pass %s: stopped after %v at call depth %d of %d with %d states on the frontier (all sequences of ≤%d calls were completed)", engine, pref, b.passBudget, depth, b.maxCalls, len(frontier), depth))
+			break
+		}
 		var next []node
 		level := map[string][]Call{}
 		core.ParallelFor(len(frontier), func(i int) {
@@ -577,7 +586,7 @@ func Bounds(quick bool) bounds {
 	if quick {
 		return bounds{keys: []string{"a", "b"}, maxDepth: 2, maxEntries: 2, maxCalls: 10}
 	}
-	return bounds{keys: []string{"a", "b"}, maxDepth: 3, maxEntries: 2, maxCalls: 14}
+	return bounds{keys: []string{"a", "b"}, maxDepth: 3, maxEntries: 2, maxCalls: 14, passBudget: 4 * time.Minute}
 }
 
 var Engines = []string{"basic-any", "basic-map", "basic-list"}
